@@ -2,7 +2,7 @@
 # usage: bin/tv.sh <Spec> <cfg> <trace.ndjson> [metadir]  -- TLC trace validation, prints @V lines and a summary
 S=$1; C=$2; T=$3; M=${4:-/verif/build/tlc/tv.$$}
 cd /verif/spec
-TRACE=$T JAVA_TOOL_OPTIONS=-Dtlc2.tool.queue.IStateQueue=StateDeque timeout ${TV_TIMEOUT:-600} tlc -workers 1 -metadir $M -config $C $S.tla 2>&1
+TRACE=$T JAVA_TOOL_OPTIONS=-Dtlc2.tool.queue.IStateQueue=StateDeque timeout ${TV_TIMEOUT:-600} tlc -noGenerateSpecTE -workers 1 -metadir $M -config $C $S.tla 2>&1
 rc=$?
 rm -rf $M
 exit $rc
